@@ -1187,12 +1187,13 @@ decl(struct scope *s, struct func *f)
 					error(&tok.loc, "function definition not allowed");
 				if (d->defined)
 					error(&tok.loc, "function '%s' redefined", name);
+				if (!funcscope)
+					error(&tok.loc, "function '%s' defined without a function declarator", name);
 				for (p = t->u.func.params; p; p = p->next) {
 					if (p->type->incomplete)
 						error(&tok.loc, "function '%s' defined with parameter of incomplete type", name);
 				}
 				/* re-open scope from function declarator */
-				assert(funcscope);
 				s = funcscope;
 				f = mkfunc(d, name, t, s);
 				stmt(f, s);
